@@ -1,13 +1,461 @@
-//! C11 — stub (not built yet; not registered in MANIFEST.json).
-use super::*;
+//! C11 — lazy loading is equivalent to eager loading for every access pattern.
+//!
+//! Differential oracle: the same file is opened eagerly and lazily, the same generated
+//! history of operations is applied to both workbooks (materialisation operations are
+//! no-ops on the eager one), every sheet the lazy workbook has materialised must dump
+//! exactly like the eager one, both are saved, and both saved files, reloaded eagerly, must
+//! have the same content.  Independently of the eager twin, sheets that no operation edited
+//! must come back with the content of the original file, and every edit must be present.
+use super::Prop;
+use crate::dump::*;
+use crate::engine::*;
+use crate::gen::wb::*;
+use crate::props::c01::{load, save};
+use crate::props::c04::{corpus_dir, corpus_files, HEAVY};
+use proptest::prelude::*;
+use serde::{Deserialize, Serialize};
+use std::io::Cursor;
+use umya_spreadsheet::Spreadsheet;
 
 pub fn prop() -> Prop {
     Prop {
         id: "C11",
-        describe: |_| {},
-        subs: no_subs,
-        extra: no_extra,
-        replay_extra: no_replay_extra,
-        watchdog_s: (900, 7200),
+        describe,
+        subs,
+        extra: super::no_extra,
+        replay_extra: super::no_replay_extra,
+        watchdog_s: (1800, 14400),
     }
+}
+
+fn describe(ctx: &Ctx) {
+    ctx.rule("sources: corpus files (29 multi-sheet) and generated multi-sheet workbooks saved by the library, opened with read_reader(.., false); histories of 0..10 operations over read_sheet, get_sheet_mut, get_sheet_by_name_mut, read_sheet_collection, cell edit, new_sheet, remove_sheet, set_sheet_name, workbook-level insert/remove row, then save and eager reload; oracle: differential against the eagerly opened twin driven by the same history + untouched sheets equal the original + edits present. Non-trivial = at save time >=1 sheet is still unloaded and the history has >=1 edit or sheet-list change; distinct by full case");
+    ctx.assume("which sheets are materialised is tracked by the harness from the documented effect of each operation (is_deserialized is not public)");
+    ctx.assume("sheets copied raw are compared with re-serialised ones on the semantic projection plus the style rendering of every cell whose eager twin has a non-default style (a cell written without s= and one written with s=\"0\" mean the same)");
+}
+
+#[derive(Debug, Clone, Serialize, Deserialize)]
+pub enum Op {
+    ReadSheet(u16),
+    GetSheetMut(u16),
+    GetSheetByNameMut(u16),
+    ReadAll,
+    Edit { sheet: u16, col: u32, row: u32, value: ValueSpec },
+    NewSheet,
+    RemoveSheet(u16),
+    Rename(u16),
+    InsertRow { sheet: u16, row: u32, n: u32 },
+    RemoveRow { sheet: u16, row: u32, n: u32 },
+}
+
+#[derive(Debug, Clone, Serialize, Deserialize)]
+pub enum Source {
+    Corpus(String),
+    Generated(WbSpec),
+}
+
+#[derive(Debug, Clone, Serialize, Deserialize)]
+pub struct Case {
+    pub source: Source,
+    pub ops: Vec<Op>,
+    pub light: bool,
+}
+
+fn op_strategy() -> BoxedStrategy<Op> {
+    prop_oneof![
+        3 => any::<u16>().prop_map(Op::ReadSheet),
+        2 => any::<u16>().prop_map(Op::GetSheetMut),
+        2 => any::<u16>().prop_map(Op::GetSheetByNameMut),
+        1 => Just(Op::ReadAll),
+        5 => (any::<u16>(), 1u32..=12, 1u32..=20, prop_oneof![
+                crate::gen::text::plain_text(12).prop_map(|s| ValueSpec::Text(if s.is_empty() { "edited".into() } else { s })),
+                finite_f64().prop_map(|f| ValueSpec::Number(Num(f))),
+            ]).prop_map(|(sheet, col, row, value)| Op::Edit { sheet, col, row, value }),
+        2 => Just(Op::NewSheet),
+        2 => any::<u16>().prop_map(Op::RemoveSheet),
+        2 => any::<u16>().prop_map(Op::Rename),
+        1 => (any::<u16>(), 1u32..=10, 1u32..=3).prop_map(|(sheet, row, n)| Op::InsertRow { sheet, row, n }),
+        1 => (any::<u16>(), 1u32..=10, 1u32..=3).prop_map(|(sheet, row, n)| Op::RemoveRow { sheet, row, n }),
+    ]
+    .boxed()
+}
+
+fn corpus_case(t: Tier) -> BoxedStrategy<Case> {
+    let mut files = corpus_files();
+    if t == Tier::Quick {
+        files.retain(|f| !HEAVY.contains(&f.as_str()) && f != "issue_188_2.xlsx");
+    }
+    (prop::sample::select(files), prop::collection::vec(op_strategy(), 0..=8), any::<bool>())
+        .prop_map(|(f, ops, light)| Case {
+            source: Source::Corpus(f),
+            ops,
+            light,
+        })
+        .boxed()
+}
+
+fn generated_case(t: Tier) -> BoxedStrategy<Case> {
+    let cells = t.pick(15, 40);
+    (wb_spec(5, cells, 20), prop::collection::vec(op_strategy(), 0..=10), any::<bool>())
+        .prop_map(|(wb, ops, light)| Case {
+            source: Source::Generated(wb),
+            ops,
+            light,
+        })
+        .boxed()
+}
+
+fn g<R>(what: &str, f: impl FnOnce() -> Result<R, String>) -> Result<R, Verdict> {
+    match guard(f) {
+        Ok(Ok(r)) => Ok(r),
+        Ok(Err(e)) => Err(Verdict::fail(format!("{}/error", what), e)),
+        Err(p) => Err(Verdict::fail(format!("{}/panic:{}", what, p.site()), p.short())),
+    }
+}
+
+/// What the harness knows about each sheet of the workbook under test.
+#[derive(Clone, Debug)]
+struct SheetTrack {
+    /// index in the original file, None for sheets created by the history
+    orig: Option<usize>,
+    loaded: bool,
+    edited: bool,
+    /// renaming is not an edit of the sheet's content, but names that mention the sheet
+    /// (its defined names) legitimately follow the new name
+    renamed: bool,
+}
+
+fn apply(book: &mut Spreadsheet, track: &mut Vec<SheetTrack>, op: &Op, counter: &mut u32, edits: &mut Vec<(usize, u32, u32, String)>) -> Result<(), String> {
+    let n = book.get_sheet_count();
+    match op {
+        Op::ReadSheet(r) => {
+            if n > 0 {
+                let i = pick_idx(*r, n);
+                book.read_sheet(i);
+                track[i].loaded = true;
+            }
+        }
+        Op::GetSheetMut(r) => {
+            if n > 0 {
+                let i = pick_idx(*r, n);
+                let _ = book.get_sheet_mut(&i).ok_or("get_sheet_mut returned None")?;
+                track[i].loaded = true;
+            }
+        }
+        Op::GetSheetByNameMut(r) => {
+            if n > 0 {
+                let i = pick_idx(*r, n);
+                let name = book.get_sheet_collection_no_check()[i].get_name().to_string();
+                let _ = book.get_sheet_by_name_mut(&name).ok_or("get_sheet_by_name_mut returned None")?;
+                track[i].loaded = true;
+            }
+        }
+        Op::ReadAll => {
+            book.read_sheet_collection();
+            for t in track.iter_mut() {
+                t.loaded = true;
+            }
+        }
+        Op::Edit { sheet, col, row, value } => {
+            if n > 0 {
+                let i = pick_idx(*sheet, n);
+                let ws = book.get_sheet_mut(&i).ok_or("get_sheet_mut returned None")?;
+                apply_value(ws.get_cell_mut((*col, *row)), value);
+                track[i].loaded = true;
+                track[i].edited = true;
+                edits.retain(|e| !(e.0 == i && e.1 == *col && e.2 == *row));
+                edits.push((i, *col, *row, value.text()));
+            }
+        }
+        Op::NewSheet => {
+            *counter += 1;
+            let name = format!("Added{}", counter);
+            if book.new_sheet(name).is_ok() {
+                track.push(SheetTrack { orig: None, loaded: true, edited: true, renamed: false });
+            }
+        }
+        Op::RemoveSheet(r) => {
+            if n > 1 {
+                let i = pick_idx(*r, n);
+                book.remove_sheet(i).map_err(|e| e.to_string())?;
+                track.remove(i);
+                edits.retain(|e| e.0 != i);
+                for e in edits.iter_mut() {
+                    if e.0 > i {
+                        e.0 -= 1;
+                    }
+                }
+            }
+        }
+        Op::Rename(r) => {
+            if n > 0 {
+                let i = pick_idx(*r, n);
+                *counter += 1;
+                let name = format!("Renamed{}", counter);
+                if book.set_sheet_name(i, name).is_ok() {
+                    // the name is part of the sheet, its cells are not touched
+                    track[i].renamed = true;
+                }
+            }
+        }
+        Op::InsertRow { sheet, row, n: k } => {
+            if n > 0 {
+                let i = pick_idx(*sheet, n);
+                let name = book.get_sheet_collection_no_check()[i].get_name().to_string();
+                book.insert_new_row(&name, row, k);
+                for t in track.iter_mut() {
+                    t.loaded = true;
+                    t.edited = true;
+                }
+                edits.clear();
+            }
+        }
+        Op::RemoveRow { sheet, row, n: k } => {
+            if n > 0 {
+                let i = pick_idx(*sheet, n);
+                let name = book.get_sheet_collection_no_check()[i].get_name().to_string();
+                book.remove_row(&name, row, k);
+                for t in track.iter_mut() {
+                    t.loaded = true;
+                    t.edited = true;
+                }
+                edits.clear();
+            }
+        }
+    }
+    Ok(())
+}
+
+fn op_name(op: &Op) -> &'static str {
+    match op {
+        Op::ReadSheet(_) => "read_sheet",
+        Op::GetSheetMut(_) => "get_sheet_mut",
+        Op::GetSheetByNameMut(_) => "get_sheet_by_name_mut",
+        Op::ReadAll => "read_sheet_collection",
+        Op::Edit { .. } => "edit",
+        Op::NewSheet => "new_sheet",
+        Op::RemoveSheet(_) => "remove_sheet",
+        Op::Rename(_) => "set_sheet_name",
+        Op::InsertRow { .. } => "insert_row",
+        Op::RemoveRow { .. } => "remove_row",
+    }
+}
+
+/// Compare a sheet that was copied raw / re-serialised differently: semantic projection plus
+/// styles of cells that carry a non-default style in `a`.
+fn diff_sheet_loose(a_ws: &umya_spreadsheet::Worksheet, b_ws: &umya_spreadsheet::Worksheet) -> Option<(String, String)> {
+    if let Some((loc, l, r)) = diff_sheets(&sem_sheet(a_ws), &sem_sheet(b_ws)) {
+        return Some((loc, focus_diff(&l, &r)));
+    }
+    let default_style = format!("{:?}", umya_spreadsheet::Style::default());
+    for c in a_ws.get_cell_collection() {
+        let sa = format!("{:?}", c.get_style());
+        let co = c.get_coordinate();
+        let sb = b_ws
+            .get_cell((*co.get_col_num(), *co.get_row_num()))
+            .map(|x| format!("{:?}", x.get_style()))
+            .unwrap_or_else(|| default_style.clone());
+        if sa != sb && sa != default_style && sb != default_style {
+            return Some((format!("cell-style/{}", co.get_coordinate()), focus_diff(&sa, &sb)));
+        }
+    }
+    None
+}
+
+fn check(case: &Case, obs: &mut Obs) -> Verdict {
+    // the file
+    let (bytes, src) = match &case.source {
+        Source::Corpus(name) => {
+            obs.class(format!("corpus:{}", name));
+            match std::fs::read(format!("{}/{}", corpus_dir(), name)) {
+                Ok(b) => (b, "corpus"),
+                Err(e) => return Verdict::Discard(format!("cannot read {}: {}", name, e)),
+            }
+        }
+        Source::Generated(spec) => {
+            obs.class("generated");
+            let book = match guard(|| build(spec)) {
+                Ok(b) => b,
+                Err(p) => return Verdict::fail(format!("build/panic:{}", p.site()), p.short()),
+            };
+            match g("save-source", || save(&book, false)) {
+                Ok(b) => (b, "generated"),
+                Err(v) => return v,
+            }
+        }
+    };
+    let mut eager = match g("load-eager", || load(&bytes)) {
+        Ok(b) => b,
+        Err(_) => return Verdict::Discard("source not readable".into()),
+    };
+    let original = dump_book(&eager);
+    let original_sem = sem_book(&eager);
+    let mut lazy = match g("load-lazy", || {
+        umya_spreadsheet::reader::xlsx::read_reader(Cursor::new(bytes.clone()), false).map_err(|e| format!("{:?}", e))
+    }) {
+        Ok(b) => b,
+        Err(v) => return v,
+    };
+    let n0 = eager.get_sheet_count();
+    if lazy.get_sheet_count() != n0 {
+        return Verdict::fail("lazy/sheet-count", format!("{} vs {}", lazy.get_sheet_count(), n0));
+    }
+    obs.class(format!("sheets:{}", n0.min(6)));
+    let mut track_l: Vec<SheetTrack> = (0..n0).map(|i| SheetTrack { orig: Some(i), loaded: false, edited: false, renamed: false }).collect();
+    let mut track_e = track_l.clone();
+    let (mut cl, mut ce) = (0u32, 0u32);
+    let (mut edits_l, mut edits_e) = (Vec::new(), Vec::new());
+    let mut changes = false;
+    for (k, op) in case.ops.iter().enumerate() {
+        obs.class(format!("op:{}", op_name(op)));
+        if !matches!(op, Op::ReadSheet(_) | Op::GetSheetMut(_) | Op::GetSheetByNameMut(_) | Op::ReadAll) {
+            changes = true;
+        }
+        let re = guard(|| apply(&mut eager, &mut track_e, op, &mut ce, &mut edits_e));
+        let rl = guard(|| apply(&mut lazy, &mut track_l, op, &mut cl, &mut edits_l));
+        match (re, rl) {
+            (Ok(Ok(())), Ok(Ok(()))) => {}
+            (Ok(Err(a)), Ok(Err(b))) if a == b => {}
+            (Err(pe), Err(pl)) if pe.site() == pl.site() => {
+                // both panic alike: not a lazy/eager difference (in-range arguments of the
+                // structural operations are C07's subject)
+                return Verdict::Discard(format!("op {} panics on both workbooks: {}", k, pe.short()));
+            }
+            (e, l) => {
+                return Verdict::fail(
+                    format!("{}/op-{}-diverges", src, op_name(op)),
+                    format!("op #{} {:?}: eager {:?} | lazy {:?}", k, op, e.map_err(|p| p.short()), l.map_err(|p| p.short())),
+                );
+            }
+        }
+        // (i) every sheet the lazy workbook has materialised dumps like the eager one
+        for (i, t) in track_l.iter().enumerate() {
+            if !t.loaded {
+                continue;
+            }
+            let r = guard(|| {
+                let a = dump_sheet(eager.get_sheet(&i).unwrap());
+                let b = dump_sheet(lazy.get_sheet(&i).unwrap());
+                diff_sheets(&a, &b)
+            });
+            match r {
+                Err(p) => return Verdict::fail(format!("{}/materialised-sheet/panic:{}", src, p.site()), format!("after op #{} {:?}: {}", k, op, p.short())),
+                Ok(Some((loc, a, b))) => {
+                    return Verdict::fail(
+                        format!("{}/materialised-sheet-differs/{}", src, loc.split('/').next().unwrap_or("")),
+                        format!("after op #{} {:?}: sheet {} {}: eager vs lazy {}", k, op, i, loc, focus_diff(&a, &b)),
+                    )
+                }
+                Ok(None) => {}
+            }
+        }
+    }
+    let unloaded = track_l.iter().filter(|t| !t.loaded).count();
+    obs.nontrivial(unloaded >= 1 && changes);
+    obs.class(if unloaded == 0 { "at-save:all-loaded" } else if unloaded == track_l.len() { "at-save:none-loaded" } else { "at-save:some-loaded" });
+    // (ii) save both, reload eagerly, compare
+    let be = match g("save-eager", || save(&eager, case.light)) {
+        Ok(b) => b,
+        Err(_) => return Verdict::Discard("eager twin cannot be saved (not a lazy/eager difference)".into()),
+    };
+    let bl = match g(&format!("{}/save-lazy", src), || save(&lazy, case.light)) {
+        Ok(b) => b,
+        Err(v) => return v,
+    };
+    let re = match g("reload-eager", || load(&be)) {
+        Ok(b) => b,
+        Err(_) => return Verdict::Discard("eager twin's file cannot be reloaded (not a lazy/eager difference)".into()),
+    };
+    let rl = match g(&format!("{}/reload-lazy-saved", src), || load(&bl)) {
+        Ok(b) => b,
+        Err(v) => return v,
+    };
+    if re.get_sheet_count() != rl.get_sheet_count() {
+        return Verdict::fail(format!("{}/saved/sheet-count", src), format!("eager {} lazy {}", re.get_sheet_count(), rl.get_sheet_count()));
+    }
+    if re.get_sheet_count() != track_l.len() {
+        return Verdict::fail(format!("{}/saved/sheet-list", src), format!("{} sheets reloaded, model has {}", re.get_sheet_count(), track_l.len()));
+    }
+    // workbook-level items
+    {
+        let (de, dl) = (sem_book(&re), sem_book(&rl));
+        for (k, v) in &de.book {
+            if dl.book.get(k) != Some(v) {
+                return Verdict::fail(
+                    format!("{}/saved/book:{}", src, k),
+                    format!("workbook item {}: eager vs lazy {}", k, focus_diff(v, dl.book.get(k).map(|s| s.as_str()).unwrap_or("<absent>"))),
+                );
+            }
+        }
+    }
+    for (i, t) in track_l.iter().enumerate() {
+        let (we, wl) = (re.get_sheet(&i).unwrap(), rl.get_sheet(&i).unwrap());
+        if we.get_name() != wl.get_name() {
+            return Verdict::fail(format!("{}/saved/sheet-name", src), format!("sheet {}: eager {:?} lazy {:?}", i, we.get_name(), wl.get_name()));
+        }
+        let state = if t.loaded { "loaded" } else { "raw" };
+        if t.loaded {
+            // went through the same serialiser on both sides
+            if let Some((loc, a, b)) = diff_sheets(&dump_sheet(we), &dump_sheet(wl)) {
+                return Verdict::fail(
+                    format!("{}/saved/{}-sheet-differs/{}", src, state, loc.split('/').next().unwrap_or("")),
+                    format!("sheet {} {}: eager-saved vs lazy-saved {}", i, loc, focus_diff(&a, &b)),
+                );
+            }
+        } else if let Some((loc, d)) = diff_sheet_loose(we, wl) {
+            return Verdict::fail(
+                format!("{}/saved/{}-sheet-differs/{}", src, state, loc.split('/').next().unwrap_or("")),
+                format!("sheet {} {}: eager-saved vs lazy-saved {}", i, loc, d),
+            );
+        }
+        // untouched sheets keep the original's content (name aside: renaming is not an edit of content)
+        if let (Some(o), false) = (t.orig, t.edited) {
+            let mut now = sem_sheet(wl);
+            let mut was = original_sem.sheets[o].clone();
+            now.name.clear();
+            was.name.clear();
+            // the active-tab dependent parts of sheet views may change when sheets are
+            // added/removed; everything else must be as in the original
+            now.parts.remove("sheet_views");
+            was.parts.remove("sheet_views");
+            if t.renamed {
+                now.parts.remove("defined_names");
+                was.parts.remove("defined_names");
+            }
+            if let Some((loc, a, b)) = diff_sheets(&was, &now) {
+                return Verdict::fail(
+                    format!("{}/untouched-{}-sheet-changed/{}", src, state, loc.split('/').next().unwrap_or("")),
+                    format!("sheet {} (original index {}) {}: original vs saved {}", i, o, loc, focus_diff(&a, &b)),
+                );
+            }
+        }
+    }
+    let _ = original;
+    // every edit is present
+    for (i, col, row, text) in &edits_l {
+        let got = rl.get_sheet(i).and_then(|ws| ws.get_cell((*col, *row)).map(|c| c.get_value().to_string())).unwrap_or_default();
+        if &got != text {
+            return Verdict::fail(format!("{}/edit-lost", src), format!("sheet {} ({},{}) should show {:?}, shows {:?}", i, col, row, text, got));
+        }
+    }
+    Verdict::Pass
+}
+
+fn subs() -> Vec<Box<dyn DynSub>> {
+    vec![
+        Box::new(Sub {
+            name: "corpus",
+            strategy: corpus_case,
+            cases: (6, 600),
+            check,
+            max_shrink_iters: 400,
+        }),
+        Box::new(Sub {
+            name: "generated",
+            strategy: generated_case,
+            cases: (80, 4000),
+            check,
+            max_shrink_iters: 3000,
+        }),
+    ]
 }
